@@ -1,12 +1,14 @@
 (* property number -> op code -> itree -> itree *)
 From Coq Require Import List Arith NArith Bool.
-From AV Require Import Base.ITree Model.D00 Model.D01 Model.D06.
+From AV Require Import Base.ITree Model.D00 Model.D01 Model.D04 Model.D06 Model.D07.
 Import ListNotations.
 
 Definition dispatch (prop op : nat) (t : itree) : itree :=
   match prop with
   | 0 => d00 op t               (* op 0 = echo / self-test; shared comparators *)
   | 1 => d01 op t
+  | 4 => d04 op t
   | 6 => d06 op t
+  | 7 => d07 op t
   | _ => bad_input
   end.
